@@ -41,6 +41,7 @@ class C13(PropBase):
     pid = "C13"
     coq_dirs = ["Base", "C08", "C03", "C12", "C13"]
     translators = []
+    translators = []
     bins = ["c13"]
     impl_timeout = 900
     impl_mem_gb = 4
@@ -74,7 +75,7 @@ class C13(PropBase):
                 "every iteration order of their hash maps (any strict total order on the keys; instantiated at bytewise string order), registers are "
                 "emitted by membership only, join_all returns outputs by index for every completion order, every thread's symbol answers (hence its "
                 "frames) and, when module keys have distinct leaf names, the symbol-stats snapshot are the same under all schedules that finish (on "
-                "the C12 model, all task/key counts); refutations with witnesses for the pre-fix renderers (F-C13a, F-C13d) and for stats without the "
+                "the C12 model, all task/key counts), including the rendered modules[] stats fields (c13_modules_json_independent / _determined); refutations with witnesses for the pre-fix renderers (F-C13a, F-C13d) and for stats without the "
                 "leaf-name hypothesis (F-C13c, known). Everything beyond these cores is checked by a direct oracle only: the same input processed "
                 ">= 18 times in-process (fresh hash seeds) under three executors and rotated supplier delays must give byte-identical JSON and text.",
         "note": "Trusted: Coq kernel; hand-written models (limits renderer correspondence-checked here, Symbolizer model by C12); the oracle is search, not proof. "
@@ -191,6 +192,18 @@ class C13(PropBase):
                 data = "".join(rng.choice(alpha + "\n\n") for _ in range(rng.below(80))).encode()
             cases.append("R " + hx(data))
         dist["R_limits_names"] = n_r
+        n_e = n_r // 3
+        for _ in range(n_e):
+            nm = rng.range(1, 4)
+            mods = ["m%d" % i for i in range(nm)]
+            names = []
+            while len(names) < rng.range(1, 5):
+                c = rng.choice(["a", "b", "B", "ab", "a0", "Z", "cert", "Cert", "z9", "a_b", "a-b", "aa", "0"]) + rng.choice(["", "", "1", "x"])
+                if c not in names:
+                    names.append(c)
+            certs = ",".join("%s:%s" % (c, "+".join(rng.choice(mods + ["other"]) for _ in range(rng.range(1, 3)))) for c in names)
+            cases.append("E %s %s" % (certs, ",".join(mods)))
+        dist["E_cert_subjects"] = n_e
         # C03's structured generator (without the deep-stack theme: 24 runs per case)
         themes = ["plain", "symbols", "symbols", "symbols", "limits", "guard", "instr", "overlap", "modules", "exc"]
         k = 0
@@ -245,8 +258,8 @@ class C13(PropBase):
     def oracle(self, case, ans, profile):
         if ans.startswith("P;;"):
             return "panic or hang while processing: " + ans[3:240]
-        if case.startswith("R "):
-            return None if ans.startswith("R") else "unparseable answer " + ans[:80]
+        if case.startswith("R ") or case.startswith("E "):
+            return None if ans[:1] == case[0] else "unparseable answer " + ans[:80]
         d = dict(t.split("=", 1) for t in ans.split() if "=" in t)
         if "n" not in d:
             return "unparseable answer " + ans[:80]
@@ -267,7 +280,7 @@ class C13(PropBase):
         return msg
 
     def nontrivial(self, case, ans):
-        if case.startswith("R "):
+        if case.startswith("R ") or case.startswith("E "):
             return len(ans) > 2
         return " thr=0 " not in ans and ans.startswith("n=")
 
